@@ -77,6 +77,7 @@ func (e *e1) checkRetention(_ bool) {
 					r := e.drv.GetDirect(u)
 					res.ExpiredProbed++
 					if r.Status == 200 && len(r.Body) > 0 {
+						e.viol("C05", "observation %d: part %s of expired segment %d still returns %d bytes (window starts at %d)", e.obsN, u, msn, len(r.Body), first)
 						bad("part %s of expired segment %d still returns %d bytes (window starts at %d)", u, msn, len(r.Body), first)
 						return
 					}
